@@ -115,6 +115,16 @@ CLAIMED = {
          'type-variable-free rebuilders ignore the use-site-variance switch',
     technique='symbolic lemma + bounded symbolic execution of type-emitting generator units with symbolic switches and RNG; static site scan',
     design='4/C17'),
+ 'C11': dict(
+    text='Bounded symbolic execution of the four real translators over program families (41 repository fixtures + programs of the '
+         'real generator for 2 (thorough 5) seeds per language): for every member and every history of 2 (thorough <=3) earlier '
+         'translations by the same translator object (other members, the program itself, other-language translators on the same '
+         'program) the text equals the baseline of a fresh translator on a fresh copy and a structural snapshot of the program is '
+         'unchanged; separately, for every member, cast_numbers and every outcome of the first 2 (4) random draws the translation '
+         'consumes, the text equals the baseline.',
+    note='trusted: structural snapshot function, family membership; programs outside the families and longer histories outside',
+    technique='bounded symbolic execution of translators under symbolic translation histories and symbolic RNG; differential vs fresh translator',
+    design='4/C11'),
 }
 
 NOT_YET = 'check not built yet in this round (planned per DESIGN.md build order); not claimed'
